@@ -45,6 +45,7 @@ func main() {
 		cpuprof    = flag.String("cpuprofile", "", "write a CPU profile")
 		fallback   = flag.Int("fallback", 120000, "one-shot solver budget (ms) for queries the incremental solver leaves undecided (0 = off)")
 		gcpct      = flag.Int("gcpercent", 100, "GOGC value")
+		races      = flag.String("races", "sched", "happens-before data race detection: sched (harnesses that call verifSched), all (every harness, from the start of each path), off")
 	)
 	flag.Var(params, "param", "harness parameter name=value (repeatable)")
 	flag.Parse()
@@ -150,6 +151,7 @@ func main() {
 			MaxSteps: *maxSteps, MaxDecisions: *maxDec, MaxPaths: *maxPaths, MaxViol: *maxViol,
 			Workers: *workers, SolverPath: *solver, TimeoutMs: *timeout, Trace: *trace, Verbose: *verbose,
 			InitPkgs: initPkgs, Known: knownSet, Replay: replayModel, Params: params, FallbackMs: *fallback,
+			NoRaces: *races == "off", AllRaces: *races == "all",
 		}
 		if *budget > 0 {
 			cfg.Deadline = time.Now().Add(*budget)
